@@ -36,6 +36,8 @@ pub struct GenCfg {
     pub builtin_named_rules: bool,
     /// allow the full range of literal characters (C07) rather than the small parse alphabet
     pub wide_literals: bool,
+    /// allow stack built-ins even in the guarded profile (C07: only the reader is exercised)
+    pub stack_anyway: bool,
 }
 
 impl GenCfg {
@@ -52,6 +54,7 @@ impl GenCfg {
             shapes_pct: 25,
             builtin_named_rules: false,
             wide_literals: false,
+            stack_anyway: false,
         }
     }
 }
@@ -218,7 +221,7 @@ fn skip_ty(rng: &mut Rng, cfg: &GenCfg) -> RuleType {
 
 impl<'a> G<'a> {
     fn stack_ok(&self) -> bool {
-        self.cfg.profile == Profile::Full
+        self.cfg.profile == Profile::Full || self.cfg.stack_anyway
     }
     fn guarded(&self) -> bool {
         self.cfg.profile == Profile::Guarded
